@@ -2,8 +2,9 @@
 
 (T) Util.string_to_ms / string_to_secs are TRANSLATED from the Python source (ast) into coq/C12/gen/Time.v on
     every run (suffix chain order, slice lengths, multipliers, int/float/round calls), fail-closed.
-(H) The scalar validators, item types (single/list/set/dict/event_handler), defaults, unknown-key rejection and
-    the section loop of ConfigValidator are a hand model (coq/C12/Model.v) tied by correspondence against the real
+(H) The scalar validators (incl. template_* and gain), item types (single/list/set/dict/event_handler, event strings with
+    {conditions}), defaults, unknown-key rejection, the section loop, build_spec merge + cache and histories of validations
+    against one ConfigValidator are a hand model (coq/C12/Model.v) tied by correspondence against the real
     ConfigValidator of a booted machine.
 """
 import ast
@@ -845,12 +846,19 @@ def gen_spec_entry(rng):
     return [ty, va, de]
 
 
+EVENT_STRS = ["ev1{x>1}", "ev1{a==1}, ev2", "ev-a|5, ev_b{c==\"d, e\"}", "ev|2{x}", "ev1|3", "ev1|3, ev2|-1{y}", "a{b",
+              "a}b{c}", "ev1{x>1} ev2{y<2}", "ev.dot{x}", "ev1{x}{y}", "{x}", "ev1 {x}", "e1{a,b},e2", "e1{a\nb}, e2",
+              "none{x}", "none, e{x}", "e{none}", "e-1|2{device.switches.s1.state==1}", "e{x} , none", "E|1{X}, e|1{X}"]
+
+
 def item_for(rng, ty, va):
+    if ty in ("list", "event_handler") and rng.random() < (0.25 if ty == "event_handler" else 0.12):
+        return rng.choice(EVENT_STRS)
     if ty in ("dict", "event_handler"):
         r = rng.random()
         if ty == "event_handler" and r < 0.45:
             return rng.choice(["ev1", "ev1, ev2", "ev1,ev1", "None", "none", ["ev1", "ev2"], ["ev1", ["x"]], "", None, 5,
-                               "a,none", ["a", None, 1, 1.0, True]])
+                               "a,none", ["a", None, 1, 1.0, True], ["ev1{x>1}", "ev2|5"], {"ev1{x>1}": "1s", "ev2|5": 0}])
         if r < 0.75:
             parts = va.split(":")
             kv, vv = parts[0], parts[1] if len(parts) > 1 else "str"
@@ -1141,7 +1149,13 @@ def py_has_type(va, t, stats=None):
     if n == "enum":
         return t[0] == "n" or (t[0] == "s" and p is not None and t[1] in p.lower().split(","))
     if n == "machine":
-        return t[0] == "n" or (t[0] == "dev" and t[2] in MACHINE.get(p, []))
+        if t[0] == "n":
+            return True
+        if p not in MACHINE:
+            # not a device collection of the rig machine (e.g. machine.shows holds the built-in Show objects "on", "off",
+            # "flash", ...): the oracle has no independent registry for it -> not judged
+            return None if t[0] in ("other", "dev") else False
+        return t[0] == "dev" and t[2] in MACHINE.get(p, [])
     if n == "pow2":
         return t[0] == "n" or (t[0] == "i" and _is_pow2_int(int(t[1])))
     if n == "bool_int":
@@ -1162,8 +1176,42 @@ def py_has_type(va, t, stats=None):
     if n == "gain":
         return t[0] == "n" or (t[0] == "f" and 0.0 <= float(t[1]) <= 1.0)
     if n == "subconfig":
-        return t[0] == "d"
+        return subconfig_ok(p, t)
     return None
+
+
+def subconfig_ok(param, t, depth=0):
+    """subconfig(section[,base...]): the result is a dict that contains every non-private key the sub-section declares
+    (own declarations first, bases fill in: independent merge of the real spec), each of its declared type.  pow2 / gain
+    positions are not judged here (recorded findings have their own classification at the top level)."""
+    if t[0] != "d":
+        return False
+    if not t[1]:
+        return True          # `if item is None: return {}`: the empty dict is the subconfig type's "not given"
+    if not param or depth > 3:
+        return None
+    rs = real_spec()
+    names = param.split(",")
+    if any(n not in rs["spec"] or not isinstance(rs["spec"][n], dict) for n in names):
+        return None
+    merged = merged_spec_py([enc_spec(rs["spec"][n]) for n in names])
+    have = {json.dumps(k): v for k, v in t[1]}
+    verdict = True
+    for k, e in merged.items():
+        if e[0] != "item" or k.startswith("_"):
+            continue
+        vt = have.get(json.dumps(["s", k]))
+        if vt is None:
+            return False
+        names_k = [split_validator(x)[0] for x in (e[2].split(":")[:2] if e[1] in ("dict", "event_handler") else [e[2]])]
+        if any(x in ("pow2", "gain") for x in names_k):
+            continue
+        r = py_has_item_type(e[1], e[2], vt)
+        if r is False:
+            return False
+        if r is None:
+            verdict = None
+    return verdict
 
 
 def py_has_item_type(ty, va, t):
@@ -1832,14 +1880,14 @@ HDR_STORE = ("From Coq Require Import QArith.\nFrom C12 Require Import Base Mode
 
 SUITES = [
     Suite("time", gen_time, run_time, HDR_TIME, coq_time, oracle_time, shrink_time, nontrivial_time,
-          {"quick": 2500, "thorough": 100000}, describe=describe_time, shard=500),
+          {"quick": 2000, "thorough": 100000}, describe=describe_time, shard=500),
     Suite("item", gen_item, run_item, HDR_ITEM, coq_item, oracle_item, shrink_item, nontrivial_item,
           {"quick": 3500, "thorough": 120000}, worker_init=rig_init, describe=describe_item, shard=500),
     Suite("section", gen_section, run_section, HDR_SECTION, coq_section, oracle_section, shrink_section,
-          nontrivial_section, {"quick": 1400, "thorough": 60000}, worker_init=rig_init, describe=describe_section,
+          nontrivial_section, {"quick": 1200, "thorough": 40000}, worker_init=rig_init, describe=describe_section,
           shard=300),
     Suite("store", gen_store, run_store, HDR_STORE, coq_store, oracle_store, shrink_store, nontrivial_store,
-          {"quick": 400, "thorough": 20000}, worker_init=rig_init, describe=describe_store, shard=250),
+          {"quick": 300, "thorough": 8000}, worker_init=rig_init, describe=describe_store, shard=250),
 ]
 
 
@@ -1859,47 +1907,73 @@ def widened_search(seed):
 
 
 RULE_BASE = ("time: strings <decimal><suffix> (65% d.ddd, plus integers, long fractions, exponents, underscores, whitespace, "
-        "inf/nan, junk) x suffix ms/msec/s/sec/m/h/d in random letter case, and non-string inputs; non-trivial = digits "
-        "and a letter suffix.  item: 30% entries drawn from the real config_spec.yaml (all sections), 70% synthetic "
-        "type|validator|default over every modelled validator (with ranges, enums, device sections, _or_token, malformed "
-        "validators) and item type; the item is mostly-valid for the validator (boundary values lo, hi, lo-1, hi+0.001, NaN, "
-        "inf, numeric text with whitespace/sign/underscore) or an arbitrary nested YAML value; 12% absent (default / "
-        "required).  section: 45% real sections (with base spec 'device' where declared), 55% synthetic specs with 1-3 base "
-        "specs; mostly-valid source with one perturbation (unknown key incl. _private / empty / non-string keys, wrong "
-        "type, deleted key, non-dict source); non-trivial = non-empty dict source; distinct by case hash")
+             "inf/nan, junk) x suffix ms/msec/s/sec/m/h/d in random letter case, and non-string inputs; non-trivial = digits "
+             "and a letter suffix.  item: 30% entries drawn from the real config_spec.yaml (all sections), 70% synthetic "
+             "type|validator|default over every modelled validator (ranges, enums with case folding, machine(...) device "
+             "references, _or_token, template_int/float/bool/secs/ms/str, gain, malformed validators) and item type; the item is "
+             "mostly-valid for the validator (boundary values lo, hi, lo-1, hi+0.001, NaN, inf, numeric text with "
+             "whitespace/sign/underscore; template texts that parse / do not parse as Python expressions, '(..)' and '{..}' "
+             "forms; gains in/out of range, NaN, dB texts; event strings with {conditions} and |priorities) or an arbitrary "
+             "nested YAML value; 12% absent (default / required).  section: every even case takes the NEXT section of "
+             "config_spec.yaml in turn (all sections every run, 2.7x in the quick tier) with the base spec MPF uses for its "
+             "__type__ (device -> 'device', config_player -> 'config_player_common'; 12% other / no / two bases), odd cases "
+             "synthetic specs with 1-3 base specs over a small key set (overriding keys frequent); mostly-valid source with one "
+             "perturbation (unknown key incl. _private / empty / non-string keys, wrong type, deleted key, non-dict source); "
+             "each source is validated twice (second time through the cached merged spec) and every key once on its own "
+             "against the section's own declaration (independent merge).  store: 2-4 named sections that redeclare each "
+             "other's keys, 2-5 validations in a row against ONE validator with varying base orders, 25% repeats (cache "
+             "hits), 4% unknown section names; non-trivial = >= 2 steps with a base; distinct by case hash.")
 RULE = RULE_BASE
 TRUSTED_BASE = [
     "Coq 8.16.1 kernel (coqc), vm_compute for witnesses and for evaluating the model in the correspondence run; no native_compute",
     "axioms: none (every Print Assumptions is 'Closed under the global context'); stdlib QArith/Qround/Qabs/Lqa (lra, nra), Lia",
     "translator harness/props/c12.py translate(): Python ast of Util.string_to_ms/string_to_secs -> coq/C12/gen/Time.v "
     "(supported subset: endswith tests, [:-k] slices, int/float/round calls, * positive int constants; fail-closed), and the "
-    "check of ConfigValidator.validator_list against the model's dispatch",
+    "check of ConfigValidator.validator_list against the model's dispatch (now incl. template_* and gain)",
     "hand-written model coq/C12/Model.v + Base.v tied to the working tree by correspondence: the real ConfigValidator of a "
-    "booted machine (harness/rig.py) and the model run on the same generated inputs, outcomes compared incl. error numbers",
+    "booted machine (harness/rig.py) and the model run on the same generated inputs (items, sections, histories of "
+    "validations against one validator), outcomes compared incl. error numbers, dict order, template class and text",
     "CPython: float()/int()/round()/repr(float)/str.upper/lower/strip and binary64 arithmetic are the semantics Base.v's "
-    "rnd53 / parse_float / parse_int model; validated on every run (time suite), repr(float) supplied as data",
-    "the Python oracle (py_has_type, expected_ms with fractions.Fraction) and MPF's YAML/spec loader for config_spec.yaml",
+    "rnd53 / parse_float / parse_int model; validated on every run (time suite), repr(float) supplied as data; that "
+    "parse_float reads a plain decimal text as the exact decimal rational is proved (DecText.v)",
+    "Python's expression grammar is abstract in the model: which texts ast.parse(text, mode='eval') accepts is computed by "
+    "the harness with the ast module (not by MPF) and handed to the model as data (section '#expr'), like the device names "
+    "of the booted rig machine (section -> names, checked at worker start)",
+    "the Python oracle (py_has_type, subconfig_ok, merged_spec_py = independent merge 'own declarations first', per-key "
+    "re-validation through ConfigValidator.validate_config_item, expected_ms with fractions.Fraction) and MPF's YAML/spec "
+    "loader for config_spec.yaml",
 ]
 ASSUMPTIONS = [
     "ASCII strings; |numbers| in [2^-1000, 2^1000) or 0; numeric text <= 100 digits, |exponent| <= 180 (others are oracle-only)",
-    "spec entries are well formed (three fields; range bounds parse); validators template_*/color/kivycolor/gain/"
-    "int_from_hex/subconfig/dict(k:v) and nested sub-config lists are outside the model (oracle-only, counted)",
-    "time theorem: float() reads the text before the suffix as the nearest double of a rational x >= 0 (hypothesis), "
-    "x*unit whole and < 2^49",
-    "the fix commits d658b1b (time strings) and 5a156f6 (range NaN) are in the tree under test; pow2 is modelled as is "
-    "(known finding pow2-returns-unconverted)",
+    "spec entries are well formed (three fields; range bounds parse); validators color/color_or_token/kivycolor/int_from_hex/"
+    "subconfig/dict(k:v), gain with a dB text, and nested sub-config lists are outside the model (oracle-only, counted; "
+    "subconfig results are checked recursively by the oracle against an independent merge of the real spec)",
+    "time theorems: the fractional / whole-number theorems over arbitrary text keep the hypothesis that float() reads the "
+    "text before the suffix as the nearest double of x; time_string_value_times_unit has no such hypothesis but is for "
+    "plain decimal texts d+.d* (<= 400 digits, no sign/exponent/underscore/blanks), value 0 or >= 1e-9, value*unit < 2^49",
+    "the fix commits d658b1b (time strings) and 5a156f6 (range NaN) are in the tree under test; pow2 and gain are modelled "
+    "as they are (known findings pow2-returns-unconverted, gain-nan-unclamped)",
+    "the per-key oracle (declared-spec-not-applied) is metamorphic: it compares validate_config with validate_config_item of "
+    "the same implementation on the independently merged declaration, so it detects a wrong merge / cache / section loop, "
+    "not a wrong scalar validator (those are the typedness oracle's and the correspondence's job)",
 ]
-LEVEL_TEXT = ("Machine-checked proof (Coq) that, in an executable model of ConfigValidator (scalar validators, ranges, enums, "
-              "devices, tokens, list/set/dict/event_handler normalisation, defaults, unknown-key check, section loop, spec "
-              "merge and cache), every accepted value has its declared type and range, accepted sections are complete, unknown "
-              "keys are rejected, provided keys are kept and the spec is never modified; and that the time-string arithmetic "
-              "TRANSLATED from Util.string_to_ms on every run yields exactly value times unit (binary64 rounding modelled on "
-              "exact rationals with a proved 2^-53 relative error bound).  The model is tied to the working tree by running "
-              "both on the same generated inputs on every run; a direct oracle checks the property's predicate on the "
-              "implementation's outputs for all 220 sections of the real spec.")
+LEVEL_TEXT = ("Machine-checked proof (Coq) that, in an executable model of ConfigValidator (scalar validators incl. templates and "
+              "gain, ranges, enums, devices, tokens, list/set/dict/event_handler normalisation incl. the {condition} event "
+              "regex, defaults, unknown-key check, section loop, spec merge and cache), every accepted value has its declared "
+              "type and range, accepted sections are complete, unknown keys are rejected, provided keys are kept, the merged "
+              "spec gives every key the section's OWN declaration (bases only fill in), and over ANY history of validations "
+              "the spec is never modified and every answer equals a validation against a fresh merge; and that the "
+              "time-string arithmetic TRANSLATED from Util.string_to_ms on every run yields value times unit: exactly when "
+              "that is a whole number of ms, within 3/4 ms otherwise, proved down to the decimal text (binary64 rounding "
+              "modelled on exact rationals with a proved 2^-53 relative error bound).  The model is tied to the working tree "
+              "by running both on the same generated inputs on every run; a direct oracle checks the property's predicate on "
+              "the implementation's outputs for every section of the real spec on every run (coverage reported in RULE).")
 LEVEL_NOTE = ("Trusted: Coq kernel + vm_compute; no axioms. Time functions translated (fail-closed), validators hand-modelled and "
               "validated differentially incl. error numbers. float()/int() text parsing and binary64 rounding are modelled in "
-              "Gallina and validated against CPython on every run; that parse_float reads decimal text correctly is a hypothesis "
-              "of the time theorem (hence _partial). Unmodelled validator types are covered by the oracle only.")
-TECHNIQUE = ("Coq proof over translated (time strings) + hand-written (validators) executable model, differential correspondence "
-             "(vm_compute) against the real ConfigValidator of a booted machine, direct typedness/completeness/spec-immutability oracle")
+              "Gallina and validated against CPython on every run; Python's expression grammar (templates) and the device "
+              "registry are abstract data supplied by the harness. subconfig/color/kivycolor/int_from_hex/dict(k:v) and dB "
+              "gains are covered by the oracle only. Two known findings (pow2-returns-unconverted, gain-nan-unclamped) are "
+              "modelled faithfully with _refuted/_partial theorems.")
+TECHNIQUE = ("Coq proof over translated (time strings) + hand-written (validators, merge, cache, histories) executable model, "
+             "differential correspondence (vm_compute) against the real ConfigValidator of a booted machine, direct typedness/"
+             "completeness/own-declaration/spec-immutability oracle with an independent spec merge")
